@@ -50,6 +50,13 @@ def instances(tier, seed):
                 params={"type": "BlindRotationKey<CGGI>", "elements": nk, "stream_len": sl}, symbolic=["every stream byte"], stubs=BS,
                 functions=["poulpy-bin-fhe/src/blind_rotation/layouts/key.rs::<BlindRotationKey as ReaderFrom>::read_from", "poulpy-core/src/layouts/ggsw.rs::read_from", "poulpy-core/src/dist.rs::Distribution::read_from"], timeout=1800, mem_gb=24,
                 core=(nk, sl) in ((1, 16), (2, 200))))
+    for nk, lens in ((1, (0, 8, 15, 16, 24)), (2, (16,))):
+        for sl in lens:
+            out.append(Instance(
+                crate="hk_binfhe", family="ser.binfhe.BlindRotationKeyCompressed.read", name=f"c18_brkc_k{nk}_len{sl}", call=f"crate::c18_brk::brkc_read::<{nk}, {sl}>()", unwind=max(sl, 40) + 8,
+                params={"type": "BlindRotationKeyCompressed<CGGI>", "elements": nk, "stream_len": sl}, symbolic=["every stream byte"], stubs=BS,
+                functions=["poulpy-bin-fhe/src/blind_rotation/layouts/key_compressed.rs::<BlindRotationKeyCompressed as ReaderFrom>::read_from", "poulpy-core/src/layouts/compressed/ggsw.rs::read_from", "poulpy-core/src/dist.rs::Distribution::read_from"], timeout=1800, mem_gb=24,
+                core=(nk, sl) in ((1, 16), (1, 24))))
     for two in (False, True):
         out.append(Instance(
             crate="hk_hal", family="ser.vec_znx.reuse", name=f"c18_vec_znx_reuse_{'two_reads' if two else 'slack'}",
@@ -61,7 +68,7 @@ def instances(tier, seed):
 
 META = {
     "bounds": "receivers: VecZnx n=2,cols=1,size 1 of max 2 (32 B); ScalarZnx n=2,cols=1; MatZnx n=2,1x1x1,size 1; stream length enumerated (every field boundary +-1, payload boundaries), every stream byte symbolic",
-    "outside": "poulpy-core wrappers other than GLWE/LWE/GLWECompressed, poulpy-bin-fhe readers other than BlindRotationKey (1-2 elements, n_glwe=2, rank 1, one row), larger receivers",
+    "outside": "the Ok path of BlindRotationKeyCompressed::read_from (streams long enough for a whole element), poulpy-core wrappers other than GLWE/LWE/GLWECompressed, poulpy-bin-fhe readers other than BlindRotationKey and BlindRotationKeyCompressed (1-2 elements, n_glwe=2, rank 1, one row), larger receivers",
     "assumptions": ["std::fmt::format replaced by an empty-string stub (error messages only)", "io::Result values are mem::forget-ed in the harness"],
     "stubs": ["std::fmt::format -> crate::c18::fmt_stub"],
 }
